@@ -84,6 +84,8 @@ func (e *Env) bind(name string, v Value, t types.Type) *Env {
 }
 
 func (x *Exec) evalBool(env *Env, ex ast.Expr) *Term {
+	x.inSpec++
+	defer func() { x.inSpec-- }()
 	tv := env.eval(ex)
 	t, ok := tv.V.(*Term)
 	if !ok || t.Sort != "Bool" {
@@ -566,6 +568,14 @@ func (e *Env) evalCall(n *ast.CallExpr) TV {
 		return TV{tt.Sel("v-u", "vuint", x.intSort(64), asTerm(arg(0).V)), tUint64}
 	case "float64of":
 		return TV{tt.Sel("v-f", "vf64", sF64, asTerm(arg(0).V)), tFloat64}
+	case "float32of":
+		return TV{tt.Sel("v-g", "vf32", sF32, asTerm(arg(0).V)), types.Typ[types.Float32]}
+	case "strof":
+		return TV{tt.Sel("v-s", "vstr", "String", asTerm(arg(0).V)), tString}
+	case "boolof":
+		return TV{tt.Sel("v-b", "vbool", "Bool", asTerm(arg(0).V)), tBool}
+	case "ptrof":
+		return TV{tt.Sel("v-p", "vptr", "Int", asTerm(arg(0).V)), types.Typ[types.UnsafePointer]}
 	case "isInt", "isUint", "isF64", "isF32", "isStr", "isBool", "isPtr", "isSliceV":
 		c := map[string]string{"isInt": "vint", "isUint": "vuint", "isF64": "vf64", "isF32": "vf32", "isStr": "vstr", "isBool": "vbool", "isPtr": "vptr", "isSliceV": "vslice"}[fname]
 		return TV{tt.Is(c, asTerm(arg(0).V)), tBool}
